@@ -45,6 +45,10 @@ impl OperationControl for Repeat {
     }
 
     fn get_initial_character_class(&self, case_blind: bool) -> CharacterClass {
+        if self.min == 0 {
+            // zero iterations are possible: whatever follows decides the first character
+            return CharacterClass::all();
+        }
         self.operation.get_initial_character_class(case_blind)
     }
 
